@@ -403,15 +403,17 @@ class Event:
     def __init__(self):
         self.sim = _SIM
         self.flag = False
+        self.sim.nevents = getattr(self.sim, "nevents", 0) + 1
+        self.name = f"e{self.sim.nevents - 1}"      # e0 = first event created (toasty: the done flag), e1 = the error flag
 
     def set(self):
         me = self.sim.cur()
-        self.sim.point(lambda: [Action(me, "set-flag")])
+        self.sim.point(lambda: [Action(me, "set-flag", self.name)])
         self.flag = True
 
     def is_set(self):
         me = self.sim.cur()
-        self.sim.point(lambda: [Action(me, "flag?", str(self.flag).lower())])
+        self.sim.point(lambda: [Action(me, "flag?", f"{self.name} {str(self.flag).lower()}")])
         return self.flag
 
     def clear(self):
